@@ -283,7 +283,28 @@ func ruleRC4() Rule {
 				for _, call := range c.callsTo(g, lb) {
 					key := g.Name + "|linebreak()"
 					if g == raw {
-						rr.Bad(g, key, call.Pos(), "the raw token scanner calls linebreak() to skip a comment; linebreak also consumes the newline that follows, so a trailing comment makes the command swallow its terminating newline (`a # c\\nb` parses as `a b`; `if a # c\\nthen b; fi` is rejected)")
+						// allowed only where no token of the current line has been returned yet (a
+						// comment on a line of its own): the call sits on the false branch of a test
+						// that compares a field of the lexer with its current line
+						lineF := c.fieldVar("parser", "lexer", "line")
+						onOwnLine := false
+						for _, gd := range guardsOf(c.P, call, nil) {
+							for _, cj := range conj(gd.cond) {
+								be, ok := ast.Unparen(cj).(*ast.BinaryExpr)
+								if !ok || be.Op != token.EQL || gd.pos {
+									continue
+								}
+								fx, fy := core.FieldOf(info, be.X), core.FieldOf(info, be.Y)
+								if fx != nil && fy != nil && lineF != nil && (fx == lineF) != (fy == lineF) {
+									onOwnLine = true
+								}
+							}
+						}
+						if onOwnLine {
+							rr.OK(g, key, call.Pos(), "own-line", "the raw scanner lets linebreak() swallow newlines only for a comment that stands on a line of its own; a comment behind a token ends before the newline")
+						} else {
+							rr.Bad(g, key, call.Pos(), "the raw token scanner calls linebreak() to skip a comment; linebreak also consumes the newline that follows, so a trailing comment makes the command swallow its terminating newline (`a # c\\nb` parses as `a b`; `if a # c\\nthen b; fi` is rejected)")
+						}
 						continue
 					}
 					// the nearest preceding statement, climbing out of enclosing
